@@ -131,13 +131,15 @@ CLAIMS["C18"] = (
 
 CLAIMS["C14"] = (
     "call-graph closure of throw types, CFG reachability of a throw after a state write with propositional feasibility of the two branch-condition sets (sympy satisfiability over "
-    "stable predicate atoms), size-check presence before forwarding vector data, sibling agreement of validation guards",
+    "stable predicate atoms), size-check presence before forwarding vector data, sibling agreement of validation guards, inter-procedural may-throw summaries with call-site "
+    "constant binding for late failures inside the grid classes, null-literal argument flow to dereferencing uses",
     "Static rule discharge over the 120+ public methods of TasmanianSparseGrid and the ~900 functions they reach: every throw expression constructs std::runtime_error or "
     "std::invalid_argument and throwing std conversions are converted; in every mutating entry point no feasible path runs from a write of the grid's state (base, transforms, conformal "
     "map, level limits, construction flag) to a throw, make* validates before clear(), the readers change nothing but clear() before their last throw and commit afterwards; vector "
-    "arguments are size-checked before their data pointer is forwarded; the make / refinement / construction families reject the same things on their common parameters.",
-    "'Never hangs, no undefined behaviour for any bad call in any state' is dynamic and not decided. Exceptions thrown from inside the grid classes after partial mutation (deep "
-    "failures such as a missing custom rule file) are only covered through the throw-type clause. Level limits are treated as part of the grid's state.",
+    "arguments are size-checked before their data pointer is forwarded; the make / refinement / construction families reject the same things on their common parameters; inside the grid classes no call that can still throw "
+    "(table depth exceeded, eigen-solver failure) runs after the points / values / tensors were changed; a literal null pointer never reaches a dereference.",
+    "'Never hangs, no undefined behaviour for any bad call in any state' is dynamic and not decided. For late failures the pending-refinement and construction members are exempt "
+    "(a rejected update may drop a pending refinement). Level limits are treated as part of the grid's state. Found and repaired through D7/D8: 2f1140e, a59c34a.",
     "DESIGN.md 4/C14")
 
 CLAIMS["C10"] = (
